@@ -3,6 +3,7 @@
    FileStart, FileContent*, EndOfFile and names are pairwise distinct (what the writer
    invariant WInv gives).  Three phases for the file looked at: not started yet / open /
    closed; in every phase no block of ANOTHER file is delivered under its name. *)
+From MLA Require Import Limit.
 From MLA Require Import Base Stream Blocks Reader RoundTripBlocks RoundTripWriter LinearRoundTripDefs.
 From Coq Require Import ZifyBool ZifyNat ZifyN.
 Open Scope N_scope.
@@ -61,6 +62,7 @@ Proof.
 Qed.
 
 Section Pure.
+  Context {LIM : Limit}.
   Variable export : list bytes.
   Variable name : bytes.
   Notation lx_spec := (lx_spec export).
